@@ -36,9 +36,12 @@ Short == {<<[left |-> TRUE, kind |-> "imprint", corr |-> <<0,0,0,0>>]>>,
           <<[left |-> TRUE, kind |-> "meta", corr |-> <<0,0,0,251>>]>>}
 ListCases == {[t |-> "list", chains |-> cs, start |-> s] : cs \in (UNION {[1..m -> Short] : m \in 1..3}), s \in {0, 1, 2}}
 
-CalAlgs == {1, 5, 0}
+(* 99 stands for an algorithm that is DEFINED (its imprints parse) but that the build cannot compute: a left link switching to it makes *)
+(* the chain unevaluable -- an error, nothing else; as a right sibling it is just data                                               *)
+Unsupported == 99
+CalAlgs == {1, 5, 0, Unsupported}
 CalLinkSet == {[left |-> b, alg |-> a] : b \in BOOLEAN, a \in CalAlgs}
-CalCases == {[t |-> "cal", links |-> l, inAlg |-> a] : l \in SeqsUpTo(CalLinkSet, 4), a \in {1, 5}}
+CalCases == {[t |-> "cal", links |-> l, inAlg |-> a] : l \in SeqsUpTo(CalLinkSet, IF Cardinality(CalAlgs) > 3 THEN 3 ELSE 4), a \in {1, 5}}
 
 TimeCases == {[t |-> "time", pub |-> p, n |-> n] : p \in 0..CalPub, n \in 1..CalLen}
 LongPatterns == UNION {{[i \in 1..n |-> TRUE], [i \in 1..n |-> FALSE], [i \in 1..n |-> (i % 3 = 0)]} : n \in {31, 32, 33, 62, 63, 64, 65, 66, 70}}
@@ -59,7 +62,8 @@ Expected ==
     CASE c.t = "agg"   -> AggOut(c.links, c.start)
       [] c.t = "obj"   -> [i \in 1..Len(c.levels) |-> AggOut(c.links, c.levels[i])]
       [] c.t = "list"  -> ListOut(c.chains, c.start)
-      [] c.t = "cal"   -> CalAggregate(c.links, c.inAlg)
+      [] c.t = "cal"   -> IF \E i \in DOMAIN c.links : c.links[i].left /\ c.links[i].alg = Unsupported THEN [ok |-> FALSE]
+                          ELSE CalAggregate(c.links, c.inAlg) @@ [ok |-> TRUE]
       [] c.t = "time"  -> [v \in 0..(Pow2(c.n) - 1) |-> CalTime(BitsOf(v, c.n), c.pub)]
       [] c.t = "shape" -> [ok |-> ShapeRepresentable(c.lefts), bits |-> ShapeBits(c.lefts)]
 
